@@ -22,6 +22,18 @@ impl Default for ZD {
     fn default() -> ZD { ZD { a: 7, b: 0x0903 } }
 }
 
+/// a type whose zeroized value is NOT the all-zero bit pattern (wiping bytes instead of calling `zeroize()` is observable)
+#[derive(Clone, Copy, PartialEq, Eq, Debug)]
+pub struct Flagged {
+    pub key: u8,
+    pub retired: bool,
+}
+impl Zeroize for Flagged {
+    fn zeroize(&mut self) {
+        self.key.zeroize();
+        self.retired = true;
+    }
+}
 pub trait ZElem: Zeroize + Sized {
     fn sym() -> Self;
     fn is_zeroized(&self) -> bool;
@@ -30,6 +42,7 @@ impl ZElem for u8 { fn sym() -> u8 { any_u8() } fn is_zeroized(&self) -> bool { 
 impl ZElem for u64 { fn sym() -> u64 { any_u64() } fn is_zeroized(&self) -> bool { *self == 0 } }
 impl ZElem for [u8; 3] { fn sym() -> Self { [any_u8(), any_u8(), any_u8()] } fn is_zeroized(&self) -> bool { self[0] == 0 && self[1] == 0 && self[2] == 0 } }
 impl ZElem for GenericArray<u8, U2> { fn sym() -> Self { GenericArray::from_array([any_u8(), any_u8()]) } fn is_zeroized(&self) -> bool { self[0] == 0 && self[1] == 0 } }
+impl ZElem for Flagged { fn sym() -> Flagged { Flagged { key: any_u8(), retired: any_bool() } } fn is_zeroized(&self) -> bool { self.key == 0 && self.retired } }
 impl ZElem for ZD { fn sym() -> ZD { ZD { a: any_u8(), b: any_u16() } } fn is_zeroized(&self) -> bool { self.a == 0 && self.b == 0 } }
 
 pub fn zeroizes<T: ZElem, N: ArrayLength, const R: usize>() {
@@ -64,6 +77,19 @@ where
         assert!(a[i].same(&d[i]), "const default differs from Default::default()");
     }
     kani_cover!(true);
+}
+/// large lengths (1024-element block boundaries): the constant default against the element's constant default only
+pub fn const_defaults_big<T: DElem, N: ArrayLength, const R: usize>()
+where
+    GenericArray<T, N>: ConstDefault,
+{
+    let n = N::USIZE;
+    let a: GenericArray<T, N> = GenericArray::<T, N>::const_default();
+    assert!(a.len() == n);
+    let i = any_upto(n - 1);
+    assert!(a[i].same(&T::DEFAULT), "const_default() element differs from the element's constant default");
+    kani_cover!(i == n - 1);
+    kani_cover!(i == n - 1024);
 }
 /// nested arrays: the default of GenericArray<GenericArray<u8,U2>,N>
 pub fn const_defaults_nested<T, N: ArrayLength, const R: usize>()
@@ -101,13 +127,14 @@ macro_rules! c19_lattice {
 pub mod q {
     c19_lattice_z! { zeroizes;
         u8_n0: u8, U0, 3; u8_n1: u8, U1, 4; u8_n2: u8, U2, 5; u8_n3: u8, U3, 6; u8_n4: u8, U4, 7; u8_n5: u8, U5, 8; u8_n6: u8, U6, 9; u8_n7: u8, U7, 10; u8_n8: u8, U8, 11;
-        u64_n5: u64, U5, 8; b3_n3: [u8; 3], U3, 6; nested_n3: GenericArray<u8, U2>, U3, 6; zd_n0: ZD, U0, 3; zd_n5: ZD, U5, 8; zd_n6: ZD, U6, 9;
+        u64_n5: u64, U5, 8; b3_n3: [u8; 3], U3, 6; nested_n3: GenericArray<u8, U2>, U3, 6; zd_n0: ZD, U0, 3; zd_n5: ZD, U5, 8; zd_n6: ZD, U6, 9; flag_n1: Flagged, U1, 4; flag_n4: Flagged, U4, 7; flag_n5: Flagged, U5, 8;
     }
     c19_lattice! { const_defaults;
         zd_n0: ZD, U0, 3; zd_n1: ZD, U1, 4; zd_n2: ZD, U2, 5; zd_n3: ZD, U3, 6; zd_n4: ZD, U4, 7; zd_n5: ZD, U5, 8; zd_n6: ZD, U6, 9; zd_n7: ZD, U7, 10; zd_n8: ZD, U8, 11;
         u8_n5: u8, U5, 8; u64_n6: u64, U6, 9;
     }
     c19_lattice! { const_defaults_nested; n0: (), U0, 3; n3: (), U3, 6; }
+    c19_lattice! { const_defaults_big; zd_n1024: ZD, U1024, 3; zd_n2048: ZD, U2048, 3; zd_n4096: ZD, U4096, 3; }
 }
 pub mod t {
     c19_lattice_z! { zeroizes;
